@@ -224,7 +224,7 @@ per__long_range(long lb, long ub, unsigned long *range_r) {
         assert(ub >= 0);
         bounds_range = 1 + ((unsigned long)ub + (unsigned long)-(lb + 1));
     } else {
-        assert(!"Unreachable");
+        /* Upper bound does not fit a long, e.g. (0..18446744073709551615) */
         return -1;
     }
     *range_r = bounds_range;
